@@ -803,6 +803,7 @@ func (h *packetHandlerMap) AddWithConnID(clientDestConnID, newConnID protocol.Co
 }
 
 func (h *packetHandlerMap) Remove(id protocol.ConnectionID) {
+	verifSchedPoint("routing")
 	h.mutex.Lock()
 	delete(h.handlers, id)
 	h.mutex.Unlock()
@@ -814,6 +815,7 @@ func (h *packetHandlerMap) Remove(id protocol.ConnectionID) {
 // * remote close: absorb delayed packets
 // * local close: retransmit the CONNECTION_CLOSE packet, in case it was lost
 func (h *packetHandlerMap) ReplaceWithClosed(ids []protocol.ConnectionID, connClosePacket []byte, expiry time.Duration) {
+	verifSchedPoint("routing")
 	var handler packetHandler
 	if connClosePacket != nil {
 		handler = newClosedLocalConn(
